@@ -686,6 +686,9 @@ func (fv *FV) expr(e *Env, x ast.Expr) Value {
 	case *ast.FuncLit:
 		r := fv.allocRef(e, "closure")
 		fv.closures[r.S] = x
+		if fv.spec == nil && fv.u != nil && fv.u.C != nil && fv.inlineDepth == 0 && fv.u.C.ClosureChecked[funcLitOrd(fv.u.Decl, x)] {
+			fv.probeClosureBody(e, x)
+		}
 		if fv.spec == nil && fv.u != nil && fv.u.C != nil && len(fv.u.C.ClosureAccepts) > 0 {
 			if cl := fv.u.C.ClosureAccepts[funcLitOrd(fv.u.Decl, x)]; cl != nil {
 				fv.probeClosure(e, x, cl, r)
